@@ -102,6 +102,10 @@ def run(ck):
         # Disabled delivers nothing; what arrives afterwards is delivered
         "8 | io=accept:1,waitflag:s,data:1:2:dis,data:1:3:dis,setflag:d1,waitflag:s2,data:1:2,data:1:1,setflag:d ; main=mode:1:disabled,setflag:s,waitflag:d1,mode:1:async,setflag:s2,waitflag:d,expectall:1",
         "8 | io=accept:1,waitflag:s,data:1:2:dis,setflag:d1,waitflag:s2,data:1:2,close:1 ; main=mode:1:disabled,setflag:s,waitflag:d1,mode:1:sync,setflag:s2,recv:1:4:200,recv:1:4:200",
+        # Sync -> Disabled with bytes still buffered: nothing is handed to the callback, what arrives while disabled is dropped,
+        # and the buffered bytes are still there for the reader after Disabled -> Sync (also: -> Async hands them over first)
+        "8 | io=accept:1,waitflag:s,data:1:2,setflag:d1,waitflag:s2,data:1:2:dis,setflag:d2,waitflag:s3,data:1:2,setflag:d ; main=mode:1:sync,setflag:s,waitflag:d1,mode:1:disabled,setflag:s2,waitflag:d2,mode:1:sync,setflag:s3,waitflag:d,recv:1:8:200,recv:1:8:200,expectall:1",
+        "8 | io=accept:1,waitflag:s,data:1:3,setflag:d1,waitflag:s2,data:1:1:dis,data:1:2:dis,setflag:d2,waitflag:s3,data:1:2,setflag:d ; main=mode:1:sync,setflag:s,waitflag:d1,mode:1:disabled,setflag:s2,waitflag:d2,mode:1:async,setflag:s3,waitflag:d,expectall:1",
         # overflow: distinct, sticky, after the bytes buffered before it
         "6 | io=accept:1,waitflag:s,data:1:4,data:1:4,data:1:2,data:1:1,close:1 ; main=mode:1:sync,setflag:s,recv:1:3:200,recv:1:3:200,recv:1:3:200,recv:1:3:200,recv:1:3:200",
         "4 | io=accept:1,waitflag:s,data:1:3,data:1:3,data:1:1,setflag:d ; main=mode:1:sync,setflag:s,waitflag:d,recv:1:8:200,recv:1:8:200,recv:1:8:50",
@@ -123,7 +127,7 @@ def run(ck):
         for k in range(nsched if p not in hand else nsched * 25):
             lines.append("%s | random %d" % (p, ck.seed * 1000003 + i * 101 + k))
     tc.run_cases(ck, lines, "random", nontrivial)
-    dfs = [hand[0], hand[2], hand[5], hand[10]] if not thorough else hand
+    dfs = [hand[0], hand[2], hand[7], hand[12]] if not thorough else hand
     for j, p in enumerate(dfs):
         tc.run_dfs(ck, p, 2 if thorough else 1, 30000 if thorough else 3000, "dfs%d" % j, nontrivial)
 
